@@ -243,10 +243,17 @@ class Interp:
         sym = "%s.%s" % (obj.name, name) + ("!%d" % ver if ver else "")
         saved = self.heap
         self.heap = h
+        before = set(h.data.keys())
         try:
             v = self.fresh(shape, sym)
         finally:
             self.heap = saved
+        if ver == 0 and not self.creating_new:
+            # everything created while materialising initial state belongs to the older states as well
+            for k2 in set(h.data.keys()) - before:
+                for s_ in self.snapshots + [self.heap] + ([self.old_heap] if self.old_heap is not None else []):
+                    if s_ is not h and k2 not in s_.data:
+                        s_.data[k2] = h.data[k2]
         h.data[key] = v
         for s in self.snapshots + [self.heap] + ([self.old_heap] if self.old_heap is not None else []):
             if s is not h and key not in s.data and s.ver.get(key, 0) == ver:
@@ -329,7 +336,7 @@ class Interp:
             c = self.container(v.ref)
             if isinstance(c, DConc):
                 return z3.BoolVal(len(c.entries) > 0)
-            raise Unsupported("truthiness of an abstract map")
+            return z3.Bool("nonempty:" + v.ref.name)       # an abstract map is empty or not (unknown)
         if t == "set":
             c = self.container(v.ref)
             return z3.BoolVal(len(c.items) > 0)
@@ -1759,6 +1766,14 @@ class Interp:
         try:
             if star:
                 o = self.force(self.eval(node))
+                if o.tag in ("dict", "list"):
+                    c = self.container(o.ref)
+                    if isinstance(c, DConc):
+                        self.heap.data[(o.ref, "$")] = DConc(tuple((k, self.havoc_like(self.force(v_), "havoc"))
+                                                                   for k, v_ in c.entries))
+                        self.modified.add((o.ref, "$"))
+                        return
+                    raise SpecError("modifies %s.*: abstract container" % loc)
                 if o.tag != "obj":
                     raise SpecError("modifies %s.*: not an object" % loc)
                 for (ob, f) in list(self.heap.data.keys()):
